@@ -53,8 +53,20 @@ struct Eval {
 }
 
 fn eval(sc: &Scenario, ctx: &std::sync::Arc<c2pa::Context>, vctx: &std::sync::Arc<c2pa::Context>, plan: FaultPlan, rng: Option<Rng>, record: bool) -> (Eval, stream::WorldRef) {
+    eval2(sc, ctx, vctx, plan, rng, record, false)
+}
+
+/// Re-run a failing fault plan with call-site capture; returns the SDK site that met the fault.
+fn site_of(sc: &Scenario, ctx: &std::sync::Arc<c2pa::Context>, vctx: &std::sync::Arc<c2pa::Context>, plan: FaultPlan) -> String {
+    let (_, w) = eval2(sc, ctx, vctx, plan, None, false, true);
+    let s = w.lock().unwrap().site.clone();
+    s.unwrap_or_else(|| "unknown".into())
+}
+
+fn eval2(sc: &Scenario, ctx: &std::sync::Arc<c2pa::Context>, vctx: &std::sync::Arc<c2pa::Context>, plan: FaultPlan, rng: Option<Rng>, record: bool, capture: bool) -> (Eval, stream::WorldRef) {
     let world = stream::new_world(plan, rng);
     world.lock().unwrap().record = record;
+    world.lock().unwrap().capture_site = capture;
     ops::cb_reset(Some(world.clone()), None);
     let env = ExecEnv { ctx, verify_ctx: vctx, world: &world, pend: None };
     let outcome = ops::exec(sc, &env);
@@ -119,7 +131,7 @@ impl Property for C35 {
         let scs = scenarios();
         let (op, fmt, binding) = scs[(rc.idx % scs.len() as u64) as usize];
         let max_sites = match rc.tier {
-            Tier::Quick => 24,
+            Tier::Quick => 400,
             Tier::Thorough => 100_000,
         };
         let (sc, ctx, vctx) = match build_scenario(rc, op, fmt, binding) {
@@ -164,12 +176,12 @@ impl Property for C35 {
         for (mc, fr) in chunkings {
             let s = sub;
             sub += 1;
+            let r = rc.rng.fork("chunk"); // drawn whether or not this sub runs (replay)
             if !rc.want_sub(s) {
                 continue;
             }
             rc.mark(s);
             let plan = FaultPlan { max_chunk: mc, first_read_len: fr, ..Default::default() };
-            let r = rc.rng.fork("chunk");
             let (e, _) = eval(&sc, &ctx, &vctx, plan, Some(r), false);
             out.evals += 1;
             out.steps += e.st.ops;
@@ -179,7 +191,7 @@ impl Property for C35 {
             }
             check_steps(&mut out, s, &e.st, "A");
             if e.outcome != ctl.outcome {
-                out.violate(s, &format!("chunking-changes-result:{}:{}", op.name(), fmt.name()),
+                out.violate(s, &format!("chunking-changes-result:{}:{:?}", fmt.name(), binding),
                     "C35-A identical under benign chunking",
                     json!({"scenario": tag, "max_chunk": mc, "first_read_len": fr,
                            "control": ctl.outcome.brief(), "observed": e.outcome.brief()}));
@@ -187,7 +199,12 @@ impl Property for C35 {
         }
 
         // ---- B / C / E: failing at call k
+        // call-site capture (a backtrace) is slow: one capture per (call kind, phase) per run
+        let mut site_cache: std::collections::BTreeMap<String, String> = Default::default();
         let sites = pick_sites(n, max_sites, &mut rc.rng);
+        if std::env::var_os("VERIF_DEBUG").is_some() {
+            eprintln!("n={n} sites={sites:?} draws={}", rc.rng.draws);
+        }
         for (cfg, cfg_id) in [("B", 1u64), ("C", 2), ("E", 3)] {
             for &k in &sites {
                 let s = cfg_id * 1_000_000 + k;
@@ -201,7 +218,7 @@ impl Property for C35 {
                     interrupted: cfg == "E",
                     ..Default::default()
                 };
-                let (e, _) = eval(&sc, &ctx, &vctx, plan, None, false);
+                let (e, _) = eval(&sc, &ctx, &vctx, plan.clone(), None, false);
                 out.evals += 1;
                 out.steps += e.st.ops;
                 let Some((fk, kind, sid, phase)) = e.st.fired.clone() else {
@@ -213,7 +230,13 @@ impl Property for C35 {
                 out.probe(&format!("fired_in_phase:{}", if phase.is_empty() { "none" } else { &phase }));
                 out.keys.push(hash_str(&format!("{tag}|{cfg}|{k}|{}|{phase}", kind.name())));
                 check_steps(&mut out, s, &e.st, cfg);
-                let site = format!("{}:{}:{}", op.name(), kind.name(), if phase.is_empty() { "-" } else { &phase });
+                let ck = format!("{}|{}", kind.name(), phase);
+                let mut site_fn = |sc: &Scenario| {
+                    site_cache
+                        .entry(ck.clone())
+                        .or_insert_with(|| site_of(sc, &ctx, &vctx, plan.clone()))
+                        .clone()
+                };
                 let detail = json!({"scenario": tag, "config": cfg, "call_index": k, "of": n,
                     "failed_call": kind.name(), "stream": sid, "phase": phase,
                     "control": ctl.outcome.brief(), "observed": e.outcome.brief(),
@@ -225,7 +248,7 @@ impl Property for C35 {
                             if trailing {
                                 out.probe("trailing_seek_error_dropped");
                             } else {
-                                out.violate(s, &format!("io-error-hidden:{site}"),
+                                out.violate(s, &format!("io-error-swallowed@{}", site_fn(&sc)),
                                     "C35-B dead disk => Err", detail);
                             }
                         }
@@ -236,7 +259,7 @@ impl Property for C35 {
                         } else if e.outcome == ctl.outcome {
                             out.probe("oneshot_retried_identical");
                         } else {
-                            out.violate(s, &format!("io-error-wrong-result:{site}"),
+                            out.violate(s, &format!("io-error-swallowed@{}", site_fn(&sc)),
                                 "C35-C one-shot error => Err or identical to control", detail);
                         }
                     }
@@ -260,7 +283,7 @@ impl Property for C35 {
                 }
                 rc.mark(s);
                 let plan = FaultPlan { enospc_after: Some(cap), ..Default::default() };
-                let (e, _) = eval(&sc, &ctx, &vctx, plan, None, false);
+                let (e, _) = eval(&sc, &ctx, &vctx, plan.clone(), None, false);
                 out.evals += 1;
                 out.steps += e.st.ops;
                 let Some((_, kind, sid, phase)) = e.st.fired.clone() else {
@@ -271,8 +294,9 @@ impl Property for C35 {
                 out.keys.push(hash_str(&format!("{tag}|D|{cap}|{phase}")));
                 check_steps(&mut out, s, &e.st, "D");
                 if !e.outcome.is_err() {
-                    let site = format!("{}:{}:{}", op.name(), kind.name(), if phase.is_empty() { "-" } else { &phase });
-                    out.violate(s, &format!("enospc-hidden:{site}"), "C35-D full disk => Err",
+                    let _ = kind;
+                    let site = site_of(&sc, &ctx, &vctx, plan.clone());
+                    out.violate(s, &format!("io-error-swallowed@{site}"), "C35-D full disk => Err",
                         json!({"scenario": tag, "config": "D", "disk_bytes": cap, "stream": sid, "phase": phase,
                                "control": ctl.outcome.brief(), "observed": e.outcome.brief()}));
                 }
